@@ -3,7 +3,7 @@ package fragmentbuffer
 //symgo:pkg github.com/pion/dtls/v3/internal/fragmentbuffer
 //symgo:param FRAG_K quick=2 thorough=3
 //symgo:param FRAG_NBODY1 quick=2 thorough=4
-//symgo:param FRAG_NBODY quick=1 thorough=2
+//symgo:param FRAG_NBODY quick=1 thorough=1
 //symgo:outside sequences of more than FRAG_K records (covered by the induction steps in frag_limits.go), fragment bodies above FRAG_NBODY1 / FRAG_NBODY bytes, records that carry more than two fragments
 
 // zzFragRecordLen maps a choice index to the byte length of one pushed record. The table contains
@@ -63,8 +63,9 @@ func zzFragPopAll(f *FragmentBuffer, stored int) {
 // (0, 12, 13, 14, 24, 25..25+FRAG_NBODY1, 37..37+FRAG_NBODY1). Push, then Pop until nil. Proved: no call panics;
 // a record that is not a handshake record leaves the buffer empty; the pop loop ends after at most one pop per
 // stored fragment; a popped message is at least a handshake header long; the byte and fragment counters equal
-// what is really stored (recomputed by walking the cache) and are below the fixed caps. The known crash F1
-// (message of Length 0 whose only fragment is zero-length at an offset other than 0) shows up as panic:...@Pop.
+// what is really stored (recomputed by walking the cache) and are below the fixed caps. The crash F1 (message
+// of Length 0 whose only fragment is zero-length at an offset other than 0: nil dereference in Pop) is inside
+// these bounds and was reported by this entry as panic:...@Pop before its fix.
 //
 //symgo:entry covers=pushed,rejected,rejected_after_partial_store,not_handshake,popped,two_in_one_record,nothing_to_pop
 func zzFragPushOneNoPanic() {
